@@ -56,8 +56,8 @@ Record cfg := {
   c_reserve : bool;   (* true: PPPoE installInMemoryState re-reserves addresses (HEAD since 7da5674); IPoE always does *)
   c_delretry : bool;  (* true: a checkpoint Delete that fails with a Store error is repeated in the background
                          (/repo HEAD since f3eb7c5, OrderedWriter.DeleteEventually); false: only logged (before) *)
-  c_delforever : bool; (* true: the background repetition never gives up (proposed repair); false: it stops after
-                          deleteRetryAttempts failed attempts (/repo HEAD) *)
+  c_delforever : bool; (* true: the background repetition never gives up (/repo HEAD since 384ff3e); false: it stopped
+                          after 6 failed attempts (before) *)
   c_n4 : N; c_n6 : N; c_npd : N }.
 
 Definition code (f a : N) : N := 3 * a + f.
@@ -373,7 +373,7 @@ Fixpoint first_of (c : cfg) (s : st) (i : N) (pd : list (N * sess)) : option N :
    returns, the release COMPLETES in memory (addresses freed, dataplane session deleted, released event published),
    but the image is still in the store: the session is in [delpend], not in [released].
    OrderedWriter.DeleteEventually repeats the Delete on a background goroutine ([DelRetry], after 50 ms, 100 ms, ...)
-   and, on /repo HEAD, gives up after deleteRetryAttempts failures ([GiveUp]).  Before f3eb7c5 nothing was repeated
+   and, before 384ff3e, gave up after 6 failures ([GiveUp]; HEAD never gives up).  Before f3eb7c5 nothing was repeated
    (given up at once). *)
 Definition do_relf (c : cfg) (s : st) (i : N) : st * out :=
   match aget i (live s) with
